@@ -63,6 +63,8 @@ def agg_property(run):
     pid = run.pid
     spec = AGG[pid]
     q = run.tier == "quick"
+    if pid == "C02":
+        dispatch_hygiene(run, pid)
     for module, maxlen, maxdepth in spec["quick" if q else "thorough"]:
         flags = spec.get("flags", "OnlyAllOn")
         res = tlc_agg(run, "%s(len<=%d,depth<=%d)" % (module, maxlen, maxdepth), module,
@@ -127,6 +129,10 @@ def c20(run):
         res = lib.run_tlc("MC_C20", C20_CFG.format(maxops=maxops, maxdepth=maxdepth, reads=reads, ops=ops))
         run.add_tlc("MC_C20(%s,ops<=%d,depth<=%d)" % (ops, maxops, maxdepth), res, vacuity_exempt=("SetTitle", "AddDoctest", "AddSection", "ChangeTitle", "AddList"))
         rstw.replay(run, res.lines.get("BEH", []), run.seed, limit=None if q else 150000)
+    res = lib.run_tlc("MC_C20", C20_CFG.format(maxops=7, maxdepth=6, reads=1, ops="DeepOps"), simulate=60 if q else 600, depth=9,
+                      seed=run.seed, workers=8, coverage=False)
+    run.add_tlc("MC_C20(DeepOps: nesting to depth 6, simulate)", res)
+    rstw.replay(run, [b for b in res.lines.get("BEH", []) if sum(1 for o in b["hist"] if o["op"] == "directive") >= 4], run.seed, limit=3000 if q else 30000)
     # growth beyond C20: section() and doctest() (conformance of the specification to the code; IndentExact is not
     # demanded below a section, which restarts at indent 0 whatever encloses it)
     res = lib.run_tlc("MC_C20", C20_CFG.format(maxops=3 if q else 4, maxdepth=2, reads=1, ops="GrowthOps"))
@@ -241,6 +247,7 @@ def c12(run):
         res = lib.run_tlc("MC_C12", C12_CFG.format(dev="CurrentDev", invs="INVARIANT Emit"))
         run.add_tlc("MC_C12(Dev=Current)", res)
     naming.replay(run, res.lines.get("BEH", []), run.seed, limit=2500 if q else None)
+    naming.case_collision(run)
     run.assumptions += ["module doccomments at indentation 0 (re-indentation belongs to C04)",
                         "upper-case .CMAKE extensions are not judged for extension dropping"]
     return ("TLC enumerates run descriptors (file at depth 1-3 incl. dotted/dashed/upper-case names x separator x prefix "
@@ -373,6 +380,8 @@ def c01(run):
         doc_tlc(run, "C01", "IndBig", "NoFirst", "Bodies2x2full", "BothLeaders", run.seed, 11)
         doc_tlc(run, "C01", "IndBig", "NoFirst", "Bodies1x4", "Hash", run.seed, 7)
         doc_tlc(run, "C01", "IndSmall", "NoFirst", "Bodies3x1", "BothLeaders", run.seed, 3)
+    import docclean as _dc
+    _dc.big_file_case(run)
     run.assumptions += ["character classes: '#', '[', ']', ':', '.', space, tab, one letter class, one digit class, one "
                         "non-ASCII class (members drawn per occurrence from seeded pools)",
                         "bodies containing ']]' are outside the canonical form and skipped at pipeline level"]
@@ -416,6 +425,35 @@ def gen_cfg(c, faults="NoFaults", maxlen=None):
                           maxdepth=md, maxlen=maxlen or ml)
 
 
+KNOWN_PROCESSORS = {"function", "macro", "cmake_parse_arguments", "ct_add_test", "ct_add_section", "set", "cpp_class",
+                    "cpp_member", "cpp_constructor", "cpp_attr", "add_test", "option"}
+
+
+def dispatch_hygiene(run, pid):
+    """The aggregator dispatches by attribute name (process_<command>): every such attribute that is not the processor
+    of a CMake command the documentation names must not capture a user command of that name (Aggregator.tla models
+    dispatch by attribute existence; this enumerates the attributes that exist on the real class)."""
+    import agg
+    from cminx.aggregator import DocumentationAggregator
+    from rstparse import Page
+    names = sorted(a[len("process_"):] for a in dir(DocumentationAggregator) if a.startswith("process_"))
+    for nm in names:
+        if nm in KNOWN_PROCESSORS:
+            continue
+        for documented in (False, True):
+            src = ("#[[[\n# doc of a user command\n#]]\n" if documented else "") + "%s(alpha beta)\nfunction(after_it)\nendfunction()\n" % nm
+            status, text, _, _ = agg.run_real(src, agg.make_settings())
+            run.count("dispatch:%s:%s" % (nm, documented))
+            case = {"source": src, "features": {"attribute": "process_" + nm}}
+            if status != "ok":
+                run.violation(case, "processed to completion", text, "a user command named like an internal process_* attribute is not processed as an ordinary command")
+                continue
+            heads = [(n.name, n.arg) for n in Page(text).nodes if n.name != "module"]
+            want = ([("function", "%s(alpha beta)" % nm)] if documented else []) + [("function", "after_it()")]
+            if pid == "C02" and heads != want:
+                run.violation(case, want, heads, "a user command named like an internal process_* attribute does not get the entry of an ordinary command")
+
+
 def c05(run):
     import lexh
     q = run.tier == "quick"
@@ -428,6 +466,7 @@ def c05(run):
     res = lib.run_tlc("MC_C05", gen_cfg(full), simulate=25 if q else 600, depth=40, seed=run.seed, workers=8, coverage=False)
     run.add_tlc("MC_C05(simulate, files up to 60 symbols)", res)
     lexh.replay(run, "C05", [b for b in res.lines.get("BEH", []) if len(b["text"]) > 20], run.seed + 1, limit=3000 if q else 30000)
+    dispatch_hygiene(run, "C05")
     # balanced function/macro/class blocks, documented or not, in any letter case and layout: processed to completion
     import aggfamily
     cat = lib.run_tlc("MC_C05", gen_cfg(C05_CONFIGS["bracket"], maxlen=6), coverage=False, tags=("TRIVIA",)).lines["TRIVIA"][0]
